@@ -294,3 +294,35 @@ def group_codec_purity(ctx, rep, rule, sn):
                                                                     '' if norm_guard else ' ; the decoder normalises its input without testing that the normal form equals the input (several encodings of one value)'), w, sn,
                    sample='%s(%s) = %s' % (name, pname, show(val)[:120]))
     return n
+
+
+REVIEWED_GROUP_OPS = ('mul', 'curve25519_dalek::montgomery::MontgomeryPoint::mul_clamped', 'curve25519_dalek::montgomery::MontgomeryPoint::mul_base_clamped',
+                      'group::Group::generator', 'KeGroup::serialize_pk')
+
+
+def group_dh_reviewed(ctx, rep, rule, sn):
+    """the dependency equation DH(a, PK(b)) = DH(b, PK(a)) (DESIGN 3.2-7a) is assumed only for the reviewed scalar multiplications applied
+    to the unmodified key arguments: public_key(sk) = base * sk and diffie_hellman(pk, sk) = encode(pk * sk)"""
+    S = ctx.suite(sn)
+    n = 0
+    for name, ps in (('public_key', ['sk']), ('diffie_hellman', ['pk', 'sk'])):
+        bs = [b for b in S.bodies.values() if b.get('impl_trait_dpath') == 'opaque_ke::key_exchange::group::KeGroup' and b.get('name') == name]
+        if len(bs) != 1:
+            rep.ob(rule, 'KeGroup::%s instance found' % name, False, 'instances=%d' % len(bs), '', sn)
+            continue
+        s = ctx.summary(sn, bs[0]['generic_path'], params=[Sym(x) for x in ps])
+        w = where_of(s)
+        rep.ob(rule, 'KeGroup::%s has a single straight-line path' % name, len(s.paths) == 1 and s.complete, 'paths=%d' % len(s.paths), w, sn)
+        for p in s.paths:
+            val = p.value
+            apps = set(t[1] for t in subterms(val, lambda t: t[0] == 'app'))
+            unknown = sorted(a for a in apps if a not in REVIEWED_GROUP_OPS)
+            leaves = subterms(val, lambda t: t[0] in ('sym',))
+            whole = all(mentions(val, Sym(x)) for x in ps) and not subterms(val, lambda t: t[0] == 'app' and t[1] in BYTE_OPS)
+            muls = [t for t in subterms(val, lambda t: t[0] == 'app' and t[1] in REVIEWED_GROUP_OPS[:3])]
+            direct = bool(muls) and all(all(a[0] in ('sym', 'unk') or (a[0] == 'app' and a[1] == 'group::Group::generator') for a in m[2]) for m in muls)
+            good = not unknown and whole and direct
+            n += int(good)
+            rep.ob(rule, 'KeGroup::%s is a reviewed scalar multiplication of the unmodified key arguments' % name, good,
+                   'computes %s%s' % (show(val)[:200], (' using unreviewed %s' % unknown) if unknown else ''), w, sn, sample='%s = %s' % (name, show(val)[:120]))
+    return n
